@@ -260,11 +260,15 @@ impl<T: Send> ProducerSlab<T> {
     debug_assert!(count > 0);
     let expect_msg = "bump_batch: iterator yielded fewer than `count` items";
     let first = self.bump();
+    #[cfg(all(loom, excsn_fibre_verif))]
+    crate::internal::verif_shadow::write(unsafe { (*first).val.get() } as usize); // verification seam H10
     unsafe { *(*first).val.get() = Some(iter.next().expect(expect_msg)) };
     let mut prev = first;
     for _ in 1..count {
       let node = self.bump();
       unsafe {
+        #[cfg(all(loom, excsn_fibre_verif))]
+        crate::internal::verif_shadow::write((*node).val.get() as usize); // verification seam H10
         *(*node).val.get() = Some(iter.next().expect(expect_msg));
         (*prev).next.store(node, Ordering::Relaxed);
       }
